@@ -207,31 +207,40 @@ structure SetOk where
   inPlace : Bool
   deriving Repr, Inhabited
 
+/-- the in-place branch of `Set` -/
+def setUpdate (ret now : Int) (s : Store) (b : Sil) (big : Bool) : Except Err SetOk :=
+  if big then .error .tooBig else
+  let r := setSilence now s (toMesh ret b)
+  .ok { store := r.1, id := b.id, bcasts := bcastOf r.2 (toMesh ret b), inPlace := true }
+
+/-- the branch of `Set` that draws a new id (after expiring the replaced silence, if any) -/
+def setCreate (ret : Int) (maxSil : Nat) (now : Int) (s : Store) (prev : Option Mesh) (b : Sil)
+    (newId : String) (big : Bool) : Except Err SetOk :=
+  if maxSil > 0 ∧ s.st.length + 1 > maxSil then .error .limit else
+  let b' : Sil := { b with id := newId, start := if b.start < now then now else b.start }
+  if big then .error .tooBig else
+  let r1 := match prev with
+    | some p => expireCore ret now s p.sil      -- no-op when already expired
+    | none => (s, [])
+  let r2 := setSilence now r1.1 (toMesh ret b')
+  .ok { store := r2.1, id := newId, bcasts := r1.2 ++ bcastOf r2.2 (toMesh ret b'), inPlace := false }
+
+def canUpdatePrev (prev : Option Mesh) (b : Sil) (now : Int) : Bool :=
+  match prev with
+  | some p => canUpdate p.sil b now
+  | none => false
+
+/-- the version `Set` builds from its input (start defaulted to now) -/
+def silOfIn (inp : SilIn) (now : Int) : Sil :=
+  { id := inp.id, sets := inp.sets, start := inp.start.getD now, stop := inp.stop.getD 0, updated := now, comment := inp.comment }
+
 /-- `Silences.Set`.  `newId` is the uuid drawn, `big` the outcome of `checkSizeLimits`. -/
 def set (env : Env) (ret : Int) (maxSil : Nat) (now : Int) (s : Store) (inp : SilIn)
     (newId : String) (big : Bool) : Except Err SetOk :=
-  let start := inp.start.getD now
-  if !validate env inp.sets start inp.stop then .error .invalid else
-  let stop := inp.stop.getD 0
-  let prev := lookup s.st inp.id
-  if inp.id ≠ "" ∧ prev = none then .error .notFound else
-  let b : Sil := { id := inp.id, sets := inp.sets, start := start, stop := stop, updated := now, comment := inp.comment }
-  let upd := match prev with
-    | some p => canUpdate p.sil b now
-    | none => false
-  if upd then
-    if big then .error .tooBig else
-    let r := setSilence now s (toMesh ret b)
-    .ok { store := r.1, id := b.id, bcasts := bcastOf r.2 (toMesh ret b), inPlace := true }
-  else
-    if maxSil > 0 ∧ s.st.length + 1 > maxSil then .error .limit else
-    let b' : Sil := { b with id := newId, start := if b.start < now then now else b.start }
-    if big then .error .tooBig else
-    let r1 := match prev with
-      | some p => expireCore ret now s p.sil      -- no-op when already expired
-      | none => (s, [])
-    let r2 := setSilence now r1.1 (toMesh ret b')
-    .ok { store := r2.1, id := newId, bcasts := r1.2 ++ bcastOf r2.2 (toMesh ret b'), inPlace := false }
+  if !validate env inp.sets (inp.start.getD now) inp.stop then .error .invalid else
+  if inp.id ≠ "" ∧ lookup s.st inp.id = none then .error .notFound else
+  if canUpdatePrev (lookup s.st inp.id) (silOfIn inp now) now then setUpdate ret now s (silOfIn inp now) big
+  else setCreate ret maxSil now s (lookup s.st inp.id) (silOfIn inp now) newId big
 
 /-- api/v2 `postSilencesHandler`: 400 for `start ≥ end` and `end < now`, then `Set`
     (404 for `ErrNotFound`, 400 otherwise).  The API always supplies both times. -/
